@@ -1,6 +1,8 @@
 import H3.Model.Varint
 /-! Model of `h3-datagram/src/datagram.rs`: `Datagram::{new,encode,decode}` and the `Buf`
-    implementation of `EncodedDatagram` (payload modelled as one contiguous byte string). -/
+    implementation of `EncodedDatagram` (payload: one contiguous byte string `Enc`, or any list of
+    non-empty chunks `EncM` - a non-contiguous `Buf` such as `Chain` / `BufList`); the error arms of
+    `DatagramSender::send_datagram` (`datagram_handler.rs`) and what the connection makes of them. -/
 namespace H3.Datagram
 open H3.Varint
 
@@ -58,5 +60,94 @@ def decode (bs : Bytes) : DecRes :=
 def consume : Enc → List Nat → Bytes
   | _, [] => []
   | e, k :: ks => (e.chunk.take k) ++ consume (e.advance (min k e.chunk.length)) ks
+
+/-! ### a payload `Buf` of several chunks -/
+
+/-- the payload `Buf`'s own `advance` on a list of non-empty chunks (a chunk that is used up is dropped). -/
+def advChunks : List Bytes → Nat → List Bytes
+  | [], _ => []
+  | c :: cs, k => if k < c.length then c.drop k :: cs else advChunks cs (k - c.length)
+
+/-- `EncodedDatagram<B>` over a multi-chunk `B`. -/
+structure EncM where
+  hdr : Bytes
+  len : Nat
+  pos : Nat
+  payload : List Bytes
+deriving Repr, DecidableEq
+
+def encodeM (sid : Nat) (cs : List Bytes) : EncM :=
+  { hdr := intoArray (Varint.encode (sid / 4)), len := Varint.size (sid / 4), pos := 0, payload := cs }
+
+/-- `Buf::remaining`: the header bytes left plus the payload's `remaining()` (ALL its chunks). -/
+def EncM.remaining (e : EncM) : Nat := e.len - e.pos + e.payload.flatten.length
+
+/-- `Buf::chunk`: the rest of the header, then the payload's current chunk. -/
+def EncM.chunk (e : EncM) : Bytes :=
+  if e.len - e.pos > 0 then (e.hdr.take e.len).drop e.pos else e.payload.headD []
+
+def EncM.advance (e : EncM) (cnt : Nat) : EncM :=
+  let rh := e.len - e.pos
+  if rh > 0 then
+    let a := min cnt rh
+    { e with pos := e.pos + a, payload := advChunks e.payload (cnt - a) }
+  else { e with payload := advChunks e.payload cnt }
+
+def EncM.view (e : EncM) : Bytes := (e.hdr.take e.len).drop e.pos ++ e.payload.flatten
+
+def consumeM : EncM → List Nat → Bytes
+  | _, [] => []
+  | e, k :: ks => (e.chunk.take k) ++ consumeM (e.advance (min k e.chunk.length)) ks
+
+/-- `copy_to_bytes(remaining())` / `put(buf)`: chunk after chunk to the end (fuel = bytes left + 1). -/
+def drainM : Nat → EncM → Bytes
+  | 0, _ => []
+  | f + 1, e => if e.chunk.isEmpty then [] else e.chunk ++ drainM f (e.advance e.chunk.length)
+
+/-! ### `DatagramSender::send_datagram`: the error arms -/
+
+/-- `h3::quic::ConnectionErrorIncoming`. -/
+inductive CE where
+  | app (code : Nat) | timeout | internal | undefined
+deriving Repr, DecidableEq
+
+/-- `SendDatagramErrorIncoming`: what the transport answers. -/
+inductive SendIn where
+  | notAvailable | tooLarge | conn (e : CE)
+deriving Repr, DecidableEq
+
+/-- `h3::error::ConnectionError` as far as it occurs here. -/
+inductive ConnErr where
+  | remote (e : CE) | timeout | local_ (code : Nat)
+deriving Repr, DecidableEq
+
+/-- `SendDatagramError`: what the caller is told. -/
+inductive SendErr where
+  | notAvailable | tooLarge | conn (e : ConnErr)
+deriving Repr, DecidableEq
+
+/-- `handle_send_datagram_error`: the answer and the error handed to `set_conn_error_and_wake` (if any).
+    The `ConnectionError` arm wraps the transport's value in `Remote` whatever it is. -/
+def handleSendError : SendIn → SendErr × Option CE
+  | .notAvailable => (.notAvailable, none)
+  | .tooLarge => (.tooLarge, none)
+  | .conn e => (.conn (.remote e), some e)
+
+/-- `ErrorOrigin`: the first error stored in the shared state. -/
+inductive Origin where
+  | quic (e : CE) | internal (code : Nat)
+deriving Repr, DecidableEq
+
+/-- h3's `convert_to_connection_error`: what the driver and every stream handle report for the stored error. -/
+def convertOrigin : Origin → ConnErr
+  | .internal c => .local_ c
+  | .quic .timeout => .timeout
+  | .quic e => .remote e
+
+/-- `close_if_needed`: the code h3 closes the connection with when the driver meets the stored error. -/
+def closeCode : Origin → Option Nat
+  | .internal c => some c
+  | .quic .internal => some 0x102
+  | .quic _ => none
 
 end H3.Datagram
